@@ -102,7 +102,7 @@ func genKV(r *rand.Rand, id string, size int, total int) []string {
 			for q == p {
 				q = peers[g.pick(len(peers))]
 			}
-			g.add("sync %d %d", p, q)
+			g.syncMaybeFailing(p, q)
 		}
 		g.obsAll(peers)
 	}
@@ -150,7 +150,7 @@ func genDoc(r *rand.Rand, id string, size int, total int) []string {
 			for q == p {
 				q = peers[g.pick(len(peers))]
 			}
-			g.add("sync %d %d", p, q)
+			g.syncMaybeFailing(p, q)
 		}
 		g.obsAll(peers)
 		if g.pick(4) == 0 {
@@ -493,7 +493,7 @@ func genStatus(r *rand.Rand, id string, size int, total int) []string {
 	return g.lines
 }
 
-var forgeRecipes = []string{"own", "copiedid", "copiedblock", "foreignkey", "otherlog", "badhash",
+var forgeRecipes = []string{"own", "copiedid", "copiedblock", "foreignkey", "otherlog", "badhash", "wronghash", "wronghash",
 	"mut-payload", "mut-time", "mut-clockid", "mut-next", "mut-refs", "mut-key", "mut-sig",
 	"mut-identid", "mut-identpk", "mut-identsig", "mut-logid", "othertype", "mut-identtype", "selfsigned", "mut-identsigpk"}
 
@@ -510,6 +510,15 @@ func (g *Gen) psFlag() string {
 		return " ps=coreapi"
 	}
 	return ""
+}
+
+// syncMaybeFailing: a manual sync; now and then the device refuses the `_remoteHeads` Put that ends the
+// replication round (merged and indexed, neither cached nor reported)
+func (g *Gen) syncMaybeFailing(p, q int) {
+	if g.pick(8) == 0 {
+		g.add("failrput %d", p)
+	}
+	g.add("sync %d %d", p, q)
 }
 
 func (g *Gen) acFlag() string {
@@ -614,6 +623,10 @@ func genForge(r *rand.Rand, id string, size int, total int) []string {
 			}
 			shape := g.pick(4)
 			route := []string{"sync", "pub", "dc", "sync", "pub", "dc", "loadmore"}[g.pick(7)]
+			if rec == "wronghash" && route == "loadmore" {
+				// (a copy claiming another entry's address IS that entry for a caller that hands it over by hash)
+				route = "dc"
+			}
 			// (LoadMoreFrom is a local call that skips Sync: whoever makes it answers for the blocks
 			// being fetchable, so nothing unserved goes that way)
 			served := route == "loadmore"
@@ -644,7 +657,7 @@ func genForge(r *rand.Rand, id string, size int, total int) []string {
 				g.add("inject %d heads=@heads%d,@last route=%s from=%d", q, members[g.pick(len(members))], route, att)
 			case 3: // hidden behind a colluding writer's honest entry (a wrongly addressed entry cannot be
 				// fetched by its address, so `badhash` is only ever delivered as a head)
-				if colluder >= 0 && rec != "badhash" {
+				if colluder >= 0 && rec != "badhash" && rec != "wronghash" {
 					cw := colluder
 					// named as a parent (`next`) or only as a reference (`refs`) of the colluder's entry
 					how := []string{"extra", "extra", "xrefs"}[g.pick(3)]
@@ -665,6 +678,15 @@ func genForge(r *rand.Rand, id string, size int, total int) []string {
 	// honest re-announcement of everything, twice; in half of the scenarios over the direct channel
 	// (head exchange on join: q sends what it holds to p), which the instance must still be serving
 	overDC := g.pick(2) == 0
+	if overDC && isWriter[att] && len(honestWriters) > 0 {
+		// a message the instance cannot handle (a signed head claiming the wrong address makes Sync fail)
+		// reaches every member over the direct channel just before: it may be dropped as a whole, the
+		// channel must go on being served
+		g.add("forge %d recipe=wronghash as=%d base=none k=%s v=%s", att, att, hx(keys[0]), hx(g.value()))
+		for _, m := range members {
+			g.add("inject %d heads=@last route=dc from=%d", m, att)
+		}
+	}
 	if overDC && len(honestWriters) > 0 {
 		// a last honest write that the others can only learn about over the direct channel
 		write(honestWriters[g.pick(len(honestWriters))])
@@ -940,6 +962,14 @@ func genMultiDB(r *rand.Rand, id string, size int, total int) []string {
 			}
 		}
 		obsEverything()
+		if ndb > 1 && g.pick(8) == 0 {
+			// a store finds another database's snapshot under its own cache key
+			a, b := g.pick(ndb), g.pick(ndb)
+			if a != b {
+				g.add("snapcross %d %d %d", peers[g.pick(2)], a, b)
+				obsEverything()
+			}
+		}
 		if g.pick(6) == 0 {
 			// the instance goes down and comes back: every database reloads from ITS OWN cache
 			g.add("restart %d", p)
@@ -1014,10 +1044,21 @@ func genCancel(r *rand.Rand, id string, size int, total int) []string {
 
 // genLimit: persisted logs with one or several heads (local and replicated entries), reloaded with every
 // limit from below zero to beyond the log length.
+func limitWrite(g *Gen, kind string, w int) {
+	switch kind {
+	case "log":
+		g.add("add %d %s", w, hx(g.value()))
+	case "kv":
+		g.add("put %d %s %s", w, hx([]byte{byte('a' + g.pick(3))}), hx(g.value()))
+	default:
+		g.add("docput %d %s %s", w, hx([]byte{'d', byte('1' + g.pick(3))}), hx([]byte(fmt.Sprintf("v%d", g.pick(50)))))
+	}
+}
+
 func genLimit(r *rand.Rand, id string, size int, total int) []string {
 	g := &Gen{r: r}
 	peers := g.r.Perm(total)[:1+g.pick(3)]
-	kind := []string{"log", "kv"}[g.pick(2)]
+	kind := []string{"log", "kv", "doc"}[g.pick(3)]
 	// in a third of the scenarios the database is opened with a custom sort function (it must govern the
 	// store's own log exactly as it governs the logs Load builds)
 	sortfn := ""
@@ -1027,14 +1068,30 @@ func genLimit(r *rand.Rand, id string, size int, total int) []string {
 	g.add("scn %s kind=%s acl=%s peers=%s%s", id, kind, joinInts(peers), joinInts(peers), sortfn)
 	p := peers[0]
 	n := 0
+	if len(peers) >= 3 && g.pick(3) == 0 {
+		// a replica that lags: r holds a prefix of w's chain, the observer all of it; the observer is
+		// reopened with a limit (newest entries only) and r announces what it has — entries BELOW the
+		// heads of the partially loaded log arrive, the heads do not move, the view must still follow
+		w, r := peers[1], peers[2]
+		limitWrite(g, kind, w)
+		limitWrite(g, kind, w)
+		g.add("sync %d %d", r, w)
+		limitWrite(g, kind, w)
+		limitWrite(g, kind, w)
+		g.add("sync %d %d", p, w)
+		g.add("obs %d", p)
+		g.add("restart %d %d", p, 1+g.pick(2))
+		g.add("obs %d", p)
+		g.add("sync %d %d", p, r)
+		g.add("obs %d", p)
+		g.add("restart %d -1", p)
+		g.add("obs %d", p)
+		n += 4
+	}
 	steps := 1 + g.pick(size)
 	for i := 0; i < steps; i++ {
 		w := peers[g.pick(len(peers))]
-		if kind == "log" {
-			g.add("add %d %s", w, hx(g.value()))
-		} else {
-			g.add("put %d %s %s", w, hx([]byte{byte('a' + g.pick(3))}), hx(g.value()))
-		}
+		limitWrite(g, kind, w)
 		n++
 		if g.pick(3) == 0 && len(peers) > 1 {
 			q := peers[g.pick(len(peers))]
@@ -1057,19 +1114,16 @@ func genLimit(r *rand.Rand, id string, size int, total int) []string {
 		// the next restart: nothing the cache pointed to may be forgotten by it
 		if len(peers) > 1 && g.pick(4) == 0 {
 			w := peers[1+g.pick(len(peers)-1)]
-			if kind == "log" {
-				g.add("add %d %s", w, hx(g.value()))
-			} else {
-				g.add("put %d %s %s", w, hx([]byte{byte('a' + g.pick(3))}), hx(g.value()))
-			}
+			limitWrite(g, kind, w)
 			g.add("sync %d %d", p, w)
 			g.add("obs %d", p)
 		} else if g.pick(6) == 0 {
-			if kind == "log" {
-				g.add("add %d %s", p, hx(g.value()))
-			} else {
-				g.add("put %d %s %s", p, hx([]byte{byte('a' + g.pick(3))}), hx(g.value()))
-			}
+			limitWrite(g, kind, p)
+			g.add("obs %d", p)
+		} else if len(peers) > 1 && g.pick(5) == 0 {
+			// a replica that lags behind announces what it has: entries BELOW the heads of the partially
+			// loaded log arrive (the heads do not move, the view must still follow)
+			g.add("sync %d %d", p, peers[1+g.pick(len(peers)-1)])
 			g.add("obs %d", p)
 		}
 	}
@@ -1135,6 +1189,11 @@ func genAddress(r *rand.Rand, id string, size int, total int) []string {
 			g.add("openlast %d", q)
 			g.add("openlast %d localonly", q)
 			g.add("openlast %d localonly", p)
+			if g.pick(2) == 0 {
+				// an instance that cannot resolve the database's access controller right now must refuse
+				g.add("openlast %d %s", []int{p, q}[g.pick(2)], []string{"blind=actype", "blind=aclist"}[g.pick(2)])
+				g.add("openlast %d", q)
+			}
 		case 1:
 			g.add("createdb %d %s %s %s%s", p, name, kind, acl, dir)
 			g.add("parselast")
@@ -1395,6 +1454,16 @@ func genClose(r *rand.Rand, id string, size int, total int) []string {
 	}
 	g.add("closestore %d", p)
 	g.add("afterclose %d", p)
+	if second {
+		// the other side cannot know: its heads for the closed database still arrive; the instance has
+		// no store for them, and must go on serving its other database
+		g.add("dclate %d %d", p, q)
+		g.add("usedb 1")
+		g.add("add %d %s", q, hx(g.value()))
+		g.add("exchange %d %d", q, p)
+		g.add("obsdb %d 1", p)
+		g.add("usedb 0")
+	}
 	if g.pick(4) == 0 {
 		g.add("leveldrop %d", q)
 	}
